@@ -138,7 +138,11 @@ class ServeManifest(RequestHandlerBase):
             else:
                 tm = options.availabilityStartTime.replace(
                     hour=pos.hour, minute=pos.minute, second=pos.second)
-                tm2 = tm + datetime.timedelta(seconds=options.minimumUpdatePeriod)
+                mup = options.minimumUpdatePeriod
+                if mup is None:
+                    # use the update period the manifest is going to declare
+                    mup = getattr(context['mpd'], 'minimumUpdatePeriod', None) or 0
+                tm2 = tm + datetime.timedelta(seconds=mup)
                 if context['mpd'].now < tm or context['mpd'].now > tm2:
                     continue
             if (
